@@ -1,5 +1,6 @@
 //! Deterministic simulation harness for pacak/bpaf. See /verif/DESIGN.md.
 mod c04;
+mod c11;
 mod c18;
 mod driver;
 mod exec;
@@ -18,6 +19,8 @@ use std::io::Write;
 
 pub const DEFAULT_SEED: u64 = 20261002;
 pub const REPLAY_DIR: &str = "/verif/replays";
+/// C11: every n-th run also spawns real child processes (0 = never)
+pub static REAL_EVERY: std::sync::atomic::AtomicU64 = std::sync::atomic::AtomicU64::new(0);
 
 /// which pass of a check: fault-free or fault-injecting
 #[derive(Clone, Copy, Debug, PartialEq, Eq)]
@@ -53,6 +56,12 @@ pub fn gen_case(prop: &str, seed: u64, run: u64, pass: Pass) -> Case {
     let mut c = match prop {
         "C04" => c04::gen_case(s, run, pass == Pass::Faults),
         "C18" => c18::gen_case(s, run, pass == Pass::Faults),
+        "C11" => c11::gen_case(
+            s,
+            run,
+            pass == Pass::Faults,
+            REAL_EVERY.load(std::sync::atomic::Ordering::Relaxed),
+        ),
         _ => panic!("unknown property {}", prop),
     };
     c.seed = seed;
@@ -63,6 +72,7 @@ pub fn run_case(case: &Case, stats: &mut Stats) -> RunReport {
     match case.prop.as_str() {
         "C04" => c04::run_case(case, stats),
         "C18" => c18::run_case(case, stats),
+        "C11" => c11::run_case(case, stats),
         p => panic!("unknown property {}", p),
     }
 }
@@ -92,6 +102,34 @@ pub fn required_probes(prop: &str) -> Vec<&'static str> {
             "rule.T3.evaluated",
             "rule.T4.evaluated",
             "rule.T6.evaluated",
+        ],
+        "C11" => vec![
+            "op.launch",
+            "class.value",
+            "class.stdout",
+            "class.stderr",
+            "class.completion",
+            "class.script",
+            "rule.P1.evaluated",
+            "rule.P2.evaluated",
+            "rule.P4.evaluated",
+            "real.spawned",
+            "real.variant_plain",
+            "real.variant_dull_color",
+            "real.agrees_with_simulation",
+            "probe.argc_zero",
+            "probe.argv0_non_utf8",
+            "probe.argv0_is_a_path",
+            "probe.no_program_name",
+            "probe.exit_inside_run_inner",
+            "probe.simulated_process_panicked",
+            "probe.real_child_panicked",
+            "fault.stdout_enospc_at_0.fired",
+            "fault.stdout_epipe_at_0.fired",
+            "fault.stdout_enospc_mid_stream.fired",
+            "fault.stdout_closed.fired",
+            "fault.stderr_enospc_at_0.fired",
+            "fault.stderr_closed.fired",
         ],
         "C18" => vec![
             "op.run",
@@ -130,6 +168,7 @@ pub fn required_probes(prop: &str) -> Vec<&'static str> {
 pub fn nontrivial_rule(prop: &str) -> String {
     match prop {
         "C04" => "one evaluation = one simulated run: a seeded history of 2..12 operations (run_inner, completion at revisions 0/1/7/8/9, markdown/html/manpage, check_invariants, env edits, new parsers) on 1..2 long-lived generated parsers. A run is non-trivial when it had at least one seam event (environment read, env edit, injected callback fault) AND its operations ended in at least two different outcome classes; distinct = distinct hash of (definitions, initial environment, operation list with fault plans)".to_string(),
+        "C11" => "one evaluation = one simulated run: 1..4 process launches of one generated definition - (argv[0] form, argument vector, stream fault plan) - each executed as a simulated process (real OptionParser::run() behind the argv/stream/exit seams) and, for a seeded sample, as a real child process of the unhooked build. A run is non-trivial when its launches fall into at least two different outcome classes (value / help-or-version / failure / completion / script dump); distinct = distinct hash of (definition, launches with fault plans)".to_string(),
         "C18" => "one evaluation = one simulated run: a seeded history of 2..10 operations (environment edits over declared names, their aliases and undeclared look-alikes; run_inner on plain and mutated command lines; help requests; new parsers) on 1..2 long-lived generated parsers whose named items are env-backed under every wrapper. A run is non-trivial when at least one environment read found a variable set AND at least one relational rule (R2 line-wins or R3 variable-equals-typed-value) was evaluated on it; distinct = distinct hash of (definitions, initial environment, operation list)".to_string(),
         _ => String::new(),
     }
@@ -141,6 +180,11 @@ pub fn assumptions(prop: &str) -> Vec<String> {
         "the seams in /repo/src/verif.rs (cfg bpaf_verif) are the only route from bpaf to the environment, argv, stdout/stderr and process::exit; asserted by a source scan in ./check".to_string(),
         "generated definitions respect bpaf's documented usage rules and pass check_invariants".to_string(),
     ];
+    if prop == "C11" {
+        v.push("tier A's stream stub reproduces std's contract as measured on rustc 1.95 on this image (line-buffered stdout, panic on write error, tail flushed at exit with errors ignored, EBADF is silent success); tier B (real children) keeps it honest and any fault-free disagreement is a violation".to_string());
+        v.push("tier B covers Linux, pipes, /dev/full, closed descriptors and a pipe without reader; no tty, so the colour-detection path of the dull-color variant always answers 'no colour'; argc = 0 and write errors in mid-stream exist in tier A only".to_string());
+        v.push("definitions in this corpus keep the default max_width of 100 where monochrome() and print_message() must agree".to_string());
+    }
     if prop == "C18" {
         v.push("relational rules R2-R5 are evaluated only on command lines the oracle's scanner fully understands and only for items in the contexts argued sound in DESIGN.md section 7 (C18); other lines and contexts still get R1 and R7".to_string());
         v.push("a finite pool of static variable names; Windows' case-insensitive environment is not modelled".to_string());
@@ -180,6 +224,9 @@ fn worker(args: &[String]) -> i32 {
     let offset: u64 = arg(args, "--offset").unwrap_or("0").parse().expect("offset");
     let pass = Pass::parse(arg(args, "--pass").unwrap_or("clean"));
     let reverse = args.iter().any(|a| a == "--reverse");
+    if let Some(n) = arg(args, "--real-every") {
+        REAL_EVERY.store(n.parse().expect("real-every"), std::sync::atomic::Ordering::Relaxed);
+    }
     let after: Option<u64> = arg(args, "--after").map(|s| s.parse().expect("after"));
     let stdout = std::io::stdout();
     let mut out = stdout.lock();
@@ -359,6 +406,9 @@ fn minimize_cmd(args: &[String]) -> i32 {
 
 fn gen_cmd(args: &[String]) -> i32 {
     init_sim();
+    if let Some(n) = arg(args, "--real-every") {
+        REAL_EVERY.store(n.parse().expect("real-every"), std::sync::atomic::Ordering::Relaxed);
+    }
     let prop = arg(args, "--prop").expect("--prop");
     let seed: u64 = arg(args, "--seed")
         .map(|s| s.parse().expect("seed"))
